@@ -728,6 +728,41 @@ func checkC16(e *Engine, r *Report) {
 		r.Check("R6:first-socket-is-root", "R6 pool construction agreement", "without a virtual root the (only) socket becomes the root, and an existing root is never replaced", e.Pos(bs.Pos()), bs, ok, "", true)
 	}
 
+	// the tree is rebuilt from a clean root: on every path from an entry point to the construction of the first
+	// socket pool the policy's root is (re)assigned — otherwise `if p.root == nil { p.root = socket }` keeps the
+	// root of the previous tree on single-socket machines
+	{
+		fRoot := e.Field(pkgTA, "policy", "root")
+		bs := e.Fn(pkgTA, "policy.buildSocketPool")
+		br := e.Fn(pkgTA, "policy.buildRootPool")
+		isRootStore := func(in ssa.Instruction) bool {
+			st, ok := in.(*ssa.Store)
+			return ok && fieldOfAddr(st.Addr) == fRoot
+		}
+		var need func(fn *ssa.Function, target func(ssa.Instruction) bool, depth int, trail string) (bool, string)
+		need = func(fn *ssa.Function, target func(ssa.Instruction) bool, depth int, trail string) (bool, string) {
+			p := FindPath(PathQuery{Fn: fn, Block: isRootStore, Target: target})
+			if p == nil {
+				return true, ""
+			}
+			callers := e.Callers(fn)
+			if depth >= 4 || len(callers) == 0 {
+				return false, "root is not reset on: " + trail + FnName(fn) + " [" + e.pathString(p) + "]"
+			}
+			for _, cs := range callers {
+				call := cs.Call.(ssa.Instruction)
+				if ok, why := need(cs.Fn, func(in ssa.Instruction) bool { return in == call }, depth+1, trail+FnName(fn)+" <- "); !ok {
+					return false, why
+				}
+			}
+			return true, ""
+		}
+		if bs != nil && br != nil && fRoot != nil {
+			ok, why := need(br, func(in ssa.Instruction) bool { return e.IsCallTo(in, fset(bs)) }, 0, "")
+			r.Check("R6:root-reset-before-rebuild", "R6 pool construction agreement", "every (re)build of the pool tree starts from a freshly assigned root: the root is reset or set to the new virtual root before the first socket pool is created", e.Pos(br.Pos()), br, ok, why, true)
+		}
+	}
+
 	// ================================================================== supply partition
 	checkSupplyPartition(e, r, getCpu, "R11:supply-partition@getCpuSupply")
 
